@@ -56,8 +56,8 @@ Reset ==
 
 Begin ==
   /\ Ev.e = "begin"
-  /\ cmds' = Put(cmds, Ev.proc,
-        [cmd |-> Ev.cmd, now |-> Ev.now, nfail |-> 0, nmut |-> 0,
+  /\ cmds' = Put([q \in DOMAIN cmds |-> [cmds[q] EXCEPT !.solo = FALSE]], Ev.proc,
+        [cmd |-> Ev.cmd, now |-> Ev.now, nfail |-> 0, nmut |-> 0, solo |-> (DOMAIN cmds = {}),
          dry |-> IF "dry" \in DOMAIN Ev THEN Ev.dry ELSE FALSE,
          instant |-> IF "instant" \in DOMAIN Ev THEN Ev.instant ELSE FALSE,
          early |-> IF "early" \in DOMAIN Ev THEN Ev.early ELSE FALSE,
@@ -85,6 +85,13 @@ End ==
              \cup (IF Ev.res = "panic" THEN {<<"Panic", Ev.msg>>} ELSE {})
              \cup (IF Known(Ev.proc) /\ "ao_refused" \in DOMAIN Ev /\ Ev.ao_refused /\ cmds[Ev.proc].nmut > 0
                    THEN {<<"RefusedEarly", cmds[Ev.proc].cmd, cmds[Ev.proc].nmut>>} ELSE {})
+             \* a prune running alone on an undamaged repository whose snapshots all find their blobs in stored packs
+             \* (listed normally or marked for deletion) has no reason to fail - it is the run that brings marked blobs back
+             \cup (IF /\ Known(Ev.proc) /\ cmds[Ev.proc].cmd = "prune" /\ Ev.res = "err" /\ cmds[Ev.proc].solo
+                      /\ cmds[Ev.proc].nfail = 0 /\ ~cmds[Ev.proc].dry /\ ~ao /\ ~excused /\ ~loading
+                      /\ ~("ao_refused" \in DOMAIN Ev /\ Ev.ao_refused)
+                      /\ P!Unrecoverable = {} /\ P!Dangling = {}
+                   THEN {<<"PruneFails", Ev.msg>>} ELSE {})
   /\ cmds' = IF Known(Ev.proc) THEN Drop(cmds, Ev.proc) ELSE cmds
   /\ lastEnd' = IF Known(Ev.proc) THEN <<cmds[Ev.proc].cmd, Ev.res>> ELSE <<>>
   \* a completed prune brings back what the snapshots present at its beginning need
